@@ -30,8 +30,11 @@ def is_ws(c):
 
 def mk_piece(I, kind, tag, table):
     """-> (XmlAttributeValue enum, spec description)"""
-    if kind == "T1" or kind == "T2":
-        s, c = K.sym_str(tag, int(kind[1]))
+    if kind[0] == "T" and kind[1:].isdigit():
+        s, c = K.sym_str(tag, int(kind[1:]))
+        # literal text of an attribute value: XML characters other than the delimiters (so that every witness is a document)
+        import xmlref
+        c = sym.And(c, *[sym.And(xmlref.is_char(ch.c), sym.Not(sym.c_in_str(ch.c, "<&\"%"))) for ch in s])
         o = K.mk_obj("TextPiece", None, text=s)
         return K.mk_enum("XmlAttributeValue", K.INFO, "Text", o), ("text", s), c
     if kind == "C":
@@ -417,6 +420,8 @@ def cases(tier):
                     continue
                 for decl in ("none", "cdata", "tokenized"):
                     out.append((combo, ents, decl))
+    # one longer text run for the tokenized types: trimming plus collapsing of a run of three or more spaces needs five characters
+    out.append((("T5",), {}, "tokenized"))
     # cyclic entity tables: expansion must be refused, not recurse without bound
     for cyc in ({"1": ["E2"], "2": ["E1"]}, {"1": ["E1"]}, {"1": ["E2", "E1"], "2": ["T1"]}, {"1": ["T1", "E2"], "2": ["E3", "E1"], "3": ["T1"]},
                 {"1": ["E2", "E3"], "2": ["T1"], "3": ["E2", "E1"]}):
